@@ -154,3 +154,31 @@ package j5convert
 //@   ensures importsValidate: result1 == nil && hasext(validate.E_Field, result0.Options) ==> imported(ww, "buf/validate/validate.proto")
 //@   ensures importsJ5Ext: result1 == nil && (hasext(ext_j5pb.E_Field, result0.Options) || hasext(ext_j5pb.E_Key, result0.Options)) ==> imported(ww, "j5/ext/v1/annotations.proto")
 //@   ensures importsList: result1 == nil && hasext(list_j5pb.E_Field, result0.Options) ==> imported(ww, "j5/list/v1/annotations.proto")
+
+// ---- integer bounds (C12, C04): the compiled (buf.validate) bound is strict exactly when the j5s
+// rule says exclusive, inclusive otherwise, and carries the declared number unchanged.
+//@ spec func intField(node sourcewalk.FieldNode) *schema_j5pb.IntegerField = as(*schema_j5pb.Field_Integer, node.Schema).Integer
+//@ spec func isInt(node sourcewalk.FieldNode, f schema_j5pb.IntegerField_Format) bool = typeis(node.Schema, *schema_j5pb.Field_Integer) && as(*schema_j5pb.Field_Integer, node.Schema) != nil && intField(node) != nil && intField(node).Format == f && intField(node).Rules != nil
+//@ spec func exclMax(r *schema_j5pb.IntegerField_Rules) bool = r.ExclusiveMaximum != nil && *r.ExclusiveMaximum
+//@ spec func exclMin(r *schema_j5pb.IntegerField_Rules) bool = r.ExclusiveMinimum != nil && *r.ExclusiveMinimum
+//@ spec func vrules(o *descriptorpb.FieldOptions) *validate.FieldConstraints = extof(validate.E_Field, o)
+//@ spec func r32(o *descriptorpb.FieldOptions) *validate.Int32Rules = as(*validate.FieldConstraints_Int32, vrules(o).Type).Int32
+//@ spec func r64(o *descriptorpb.FieldOptions) *validate.Int64Rules = as(*validate.FieldConstraints_Int64, vrules(o).Type).Int64
+
+//@ func buildField
+//@   ensures int32max: result1 == nil && isInt(node, schema_j5pb.IntegerField_FORMAT_INT32) && intField(node).Rules.Maximum != nil && 0 - 2147483648 <= *intField(node).Rules.Maximum && *intField(node).Rules.Maximum <= 2147483647 ==>
+//@   |   vrules(result0.Options) != nil && typeis(vrules(result0.Options).Type, *validate.FieldConstraints_Int32) && r32(result0.Options) != nil
+//@   |   && (exclMax(intField(node).Rules) ==> typeis(r32(result0.Options).LessThan, *validate.Int32Rules_Lt) && as(*validate.Int32Rules_Lt, r32(result0.Options).LessThan).Lt == *intField(node).Rules.Maximum)
+//@   |   && (!exclMax(intField(node).Rules) ==> typeis(r32(result0.Options).LessThan, *validate.Int32Rules_Lte) && as(*validate.Int32Rules_Lte, r32(result0.Options).LessThan).Lte == *intField(node).Rules.Maximum)
+//@   ensures int32min: result1 == nil && isInt(node, schema_j5pb.IntegerField_FORMAT_INT32) && intField(node).Rules.Minimum != nil && 0 - 2147483648 <= *intField(node).Rules.Minimum && *intField(node).Rules.Minimum <= 2147483647 ==>
+//@   |   vrules(result0.Options) != nil && typeis(vrules(result0.Options).Type, *validate.FieldConstraints_Int32) && r32(result0.Options) != nil
+//@   |   && (exclMin(intField(node).Rules) ==> typeis(r32(result0.Options).GreaterThan, *validate.Int32Rules_Gt) && as(*validate.Int32Rules_Gt, r32(result0.Options).GreaterThan).Gt == *intField(node).Rules.Minimum)
+//@   |   && (!exclMin(intField(node).Rules) ==> typeis(r32(result0.Options).GreaterThan, *validate.Int32Rules_Gte) && as(*validate.Int32Rules_Gte, r32(result0.Options).GreaterThan).Gte == *intField(node).Rules.Minimum)
+//@   ensures int64max: result1 == nil && isInt(node, schema_j5pb.IntegerField_FORMAT_INT64) && intField(node).Rules.Maximum != nil ==>
+//@   |   vrules(result0.Options) != nil && typeis(vrules(result0.Options).Type, *validate.FieldConstraints_Int64) && r64(result0.Options) != nil
+//@   |   && (exclMax(intField(node).Rules) ==> typeis(r64(result0.Options).LessThan, *validate.Int64Rules_Lt) && as(*validate.Int64Rules_Lt, r64(result0.Options).LessThan).Lt == *intField(node).Rules.Maximum)
+//@   |   && (!exclMax(intField(node).Rules) ==> typeis(r64(result0.Options).LessThan, *validate.Int64Rules_Lte) && as(*validate.Int64Rules_Lte, r64(result0.Options).LessThan).Lte == *intField(node).Rules.Maximum)
+//@   ensures int64min: result1 == nil && isInt(node, schema_j5pb.IntegerField_FORMAT_INT64) && intField(node).Rules.Minimum != nil ==>
+//@   |   vrules(result0.Options) != nil && typeis(vrules(result0.Options).Type, *validate.FieldConstraints_Int64) && r64(result0.Options) != nil
+//@   |   && (exclMin(intField(node).Rules) ==> typeis(r64(result0.Options).GreaterThan, *validate.Int64Rules_Gt) && as(*validate.Int64Rules_Gt, r64(result0.Options).GreaterThan).Gt == *intField(node).Rules.Minimum)
+//@   |   && (!exclMin(intField(node).Rules) ==> typeis(r64(result0.Options).GreaterThan, *validate.Int64Rules_Gte) && as(*validate.Int64Rules_Gte, r64(result0.Options).GreaterThan).Gte == *intField(node).Rules.Minimum)
